@@ -981,6 +981,33 @@ def r37_ref_pattern(src, item, ed, opts):
             ed.count("R37")
 
 
+def r39_any_loop(src, item, ed, opts):
+    """`X.iter().any(|P| E)` -> `{ let mut f = false; let mut q = 0; while q < X.len() { let P = &X[q]; q += 1; if E { f = true; break; } } f }`
+    (any_loops=[{n=0, invariant=.., ensures=.., decreases=..}]): the definition of Iterator::any over a slice/vector;
+    E stays in place, so rewrites inside it still apply"""
+    clos = {tuple(c["range"]): c for c in nodes_of(item, "closure")}
+    anys = [n for n in nodes_of(item, "methodcall") if n["method"] == "any" and len(n["args"]) == 1 and tuple(n["args"][0]["range"]) in clos]
+    for sp in opts.get("any_loops", []):
+        k = sp.get("n", 0)
+        if k >= len(anys):
+            if sp.get("optional", True):
+                continue
+            raise LostAnchor(f"any() #{k} of {item['path']}")
+        n = anys[k]
+        cn = clos[tuple(n["args"][0]["range"])]
+        recv = src.text(*n["receiver"]).strip()
+        m = re.fullmatch(r"(.+)\.iter\(\)", recv, re.S)
+        if not m or len(cn["inputs"]) != 1:
+            raise Unsupported(f"R39 expects X.iter().any(|p| E), found {recv}.any(..)")
+        x = m.group(1).strip()
+        pat = cn["inputs"][0]["text"]
+        f, q = sp.get("found", "vx_found"), sp.get("q", "vx_q")
+        inv = clause("invariant_except_break", sp.get("invariant_except_break")) + clause("invariant", sp.get("invariant")) + clause("ensures", sp.get("ensures")) + clause("decreases", sp.get("decreases", f"{x}.len() - {q}"))
+        ed.replace(n["range"][0], cn["body"][0], f"{{ let mut {f} = false; let mut {q}: usize = 0; {sp.get('ghost_before', '')} while {q} < {x}.len() {inv} {{ let {pat} = &{x}[{q}]; {q} += 1; {sp.get('body_start', '')} if ", "R39")
+        ed.replace(cn["body"][1], n["range"][1], f" {{ {sp.get('on_found', '')} {f} = true; break; }} }} {sp.get('after', '')} {f} }}", "R39")
+        ed.count("R39")
+
+
 RULES = {
     "R6": r6_mem_replace,
     "R18": r18_rendering_error,
@@ -1004,10 +1031,12 @@ RULES = {
     "R35": r35_unwrap_or_else,
     "R36": r36_for_chars,
     "R37": r37_ref_pattern,
+    "R39": r39_any_loop,
     "R32": r32_for_into_iter_rev,
     "R35": r35_unwrap_or_else,
     "R36": r36_for_chars,
     "R37": r37_ref_pattern,
+    "R39": r39_any_loop,
     "R24": r24_call_shim,
 }
 
